@@ -9,6 +9,7 @@ The oracle (`Ledger`) is a reference queue model written from the property text;
 import os as real_os
 import select as real_select
 import signal as real_signal
+import threading
 import time as real_time
 
 import curtsies.input as cinput
@@ -74,6 +75,27 @@ class SEv(cevents.ScheduledEvent):
 class FakeStream:
     def fileno(self):
         return STDIN_FD
+
+
+TS_TIMEOUT = 10.0
+
+
+class TsAbort(BaseException):
+    pass
+
+
+class TsCall:
+    """one invocation of a thread-safe callback, running in its own helper thread"""
+
+    def __init__(self, p, eid):
+        self.p, self.eid = p, eid
+        self.state = "new"            # new -> at_write -> written -> done
+        self.reached = threading.Event()
+        self.go_write = threading.Event()
+        self.wrote = threading.Event()
+        self.go_finish = threading.Event()
+        self.done = threading.Event()
+        self.thread = None
 
 
 ENV = None  # the Env currently installed
@@ -160,7 +182,7 @@ class Env:
         self.spurious = False
         self.wake = []
         self.pipes = []            # unread byte counts
-        self.pending_writes = []   # per pipe: lengths of deferred os.write calls
+        self.ts_calls = []         # per pipe: TsCall objects in start order (thread-safe callbacks in flight)
         self.nonblocking_depth = 0
         self.log = []              # what the environment saw (for the oracle)
         self.next_sched_id = None
@@ -176,16 +198,88 @@ class Env:
     def os_pipe(self):
         i = len(self.pipes)
         self.pipes.append(0)
-        self.pending_writes.append([])
+        self.ts_calls.append([])
         return 2000 + 2 * i, 2001 + 2 * i
 
     def os_write(self, fd, data):
+        """The only observable point inside a thread-safe callback.  Called from the helper thread that runs the REAL
+        callback: it pauses BEFORE performing the write (until the tsB agenda item) and AFTER it (until tsC), so that
+        'appended, not yet written' and - for a callback that writes first - 'written, not yet appended' are both
+        schedulable states.  Hand-off is strict (one thread runs at a time), so a script is deterministic."""
         p = (fd - 2001) // 2
         if fd < 2001 or (fd - 2001) % 2 or p >= len(self.pipes):
             self.bad.append("write to unknown fd %r" % fd)
             return len(data)
-        self.pending_writes[p].append(len(data))   # lands at the tsWrite agenda item
+        call = getattr(threading.current_thread(), "ts_call", None)
+        if call is None:
+            self.bad.append("os.write outside a thread-safe callback")
+            self.pipes[p] += len(data)
+            return len(data)
+        call.state = "at_write"
+        call.reached.set()
+        if not call.go_write.wait(TS_TIMEOUT):
+            raise TsAbort()
+        self.pipes[p] += len(data)
+        self.log.append(("ts_write", p, call.eid))
+        call.state = "written"
+        call.wrote.set()
+        if not call.go_finish.wait(TS_TIMEOUT):
+            raise TsAbort()
         return len(data)
+
+    # ---- thread-safe callbacks: run in a helper thread, stepped by the agenda items tsA / tsB / tsC ----
+    def ts_start(self, p, eid):
+        call = TsCall(p, eid)
+        self.ts_calls[p].append(call)
+        self.log.append(("ts_start", "i%d" % p, eid))
+
+        def body():
+            threading.current_thread().ts_call = call
+            try:
+                self.ts[p](id=eid)
+            except TsAbort:
+                pass
+            except BaseException as e:  # noqa: BLE001
+                self.bad.append("thread-safe callback raised %s" % type(e).__name__)
+            finally:
+                call.state = "done"
+                self.log.append(("ts_done", "i%d" % p, eid))
+                call.reached.set()
+                call.wrote.set()
+                call.done.set()
+        call.thread = threading.Thread(target=body, daemon=True)
+        call.thread.start()
+        if not call.reached.wait(TS_TIMEOUT):
+            self.bad.append("thread-safe callback did not reach os.write")
+
+    def ts_write(self, p):
+        call = next((c for c in self.ts_calls[p] if c.state == "at_write" and not c.go_write.is_set()), None)
+        if call is None:
+            self.bad.append("tsB: no callback of pipe %d is waiting to write" % p)
+            return
+        call.go_write.set()
+        if not call.wrote.wait(TS_TIMEOUT):
+            self.bad.append("thread-safe callback did not complete its write")
+
+    def ts_finish(self, p):
+        call = next((c for c in self.ts_calls[p] if c.state == "written" and not c.go_finish.is_set()), None)
+        if call is None:
+            self.bad.append("tsC: no callback of pipe %d has written" % p)
+            return
+        call.go_finish.set()
+        if not call.done.wait(TS_TIMEOUT):
+            self.bad.append("thread-safe callback did not finish")
+
+    def ts_cleanup(self):
+        """release every helper still parked (script ended / aborted)"""
+        for calls in self.ts_calls:
+            for c in calls:
+                c.go_write.set()
+                c.go_finish.set()
+        for calls in self.ts_calls:
+            for c in calls:
+                if c.thread is not None:
+                    c.thread.join(TS_TIMEOUT)
 
     def os_read(self, fd, n):
         if fd == STDIN_FD:
@@ -257,14 +351,11 @@ class Env:
             self.next_sched_id = item[3]
             self.sched(item[2])
         elif kind == "X":
-            self.log.append(("trigger", "i%d" % item[2], item[3]))
-            self.ts[item[2]](id=item[3])
+            self.ts_start(item[2], item[3])
         elif kind == "Y":
-            p = item[2]
-            if self.pending_writes[p]:
-                self.pipes[p] += self.pending_writes[p].pop(0)
-            else:
-                self.bad.append("tsWrite without a deferred write")
+            self.ts_write(item[2])
+        elif kind == "W":
+            self.ts_finish(item[2])
         elif kind == "I":
             if self.has_wake:
                 self.wake.append(int(real_signal.SIGINT))
@@ -356,7 +447,7 @@ def enc_item(it):
     t, k = it[0], it[1]
     if k in "AU":
         return "%s%d:%s" % (k, t, it[2] or "-")
-    if k in "TYG":
+    if k in "TYGW":
         return "%s%d:%d" % (k, t, it[2])
     if k in "SX":
         return "%s%d:%d:%d" % (k, t, it[2], it[3])
@@ -375,10 +466,13 @@ def line(c):
 
 def impl(c):
     env = Env(c)
-    out = env.run()
-    if env.bad:
-        return "bad-env " + "; ".join(env.bad)
-    return " ".join(out) + " | " + env.state_str()
+    try:
+        out = env.run()
+        if env.bad:
+            return "bad-env " + "; ".join(env.bad)
+        return " ".join(out) + " | " + env.state_str()
+    finally:
+        env.ts_cleanup()
 
 
 # ------------------------------------------------------------------------------------------------
@@ -433,6 +527,7 @@ class Ledger:
         self.sched = []           # (when, seq, id) entered
         self.sched_ret = set()
         self.sig_in = self.sig_out = 0
+        self.inflight = set()     # thread-safe callbacks started and not finished: (trigger, id)
         self.pos = 0
         self.problems = []        # (what, footprint)
         self.req = 0
@@ -446,6 +541,11 @@ class Ledger:
                 self.U += rec[1]
             elif k == "trigger":
                 self.ent.setdefault(rec[1], []).append(rec[2])
+            elif k == "ts_start":
+                self.ent.setdefault(rec[1], []).append(rec[2])
+                self.inflight.add((rec[1], rec[2]))
+            elif k == "ts_done":
+                self.inflight.discard((rec[1], rec[2]))
             elif k == "schedule":
                 self.sched.append((rec[1], len(self.sched), rec[2]))
             elif k == "sigint":
@@ -457,10 +557,15 @@ class Ledger:
     def pending_sched(self):
         return [s for s in self.sched if s[2] not in self.sched_ret]
 
+    def completed_pending(self):
+        """events whose callback has run to completion and that no request has returned yet"""
+        return [(k, e) for k, v in self.ent.items() for e in v
+                if e not in self.ret.get(k, []) and (k, e) not in self.inflight]
+
     def deliverable(self, clock):
         if len(self.R) < len(self.S) + len(self.U) or self.sig_in > self.sig_out:
             return True
-        if any(len(self.ret.get(k, [])) < len(v) for k, v in self.ent.items()):
+        if self.completed_pending():
             return True
         return any(w < clock for w, _, _ in self.pending_sched())
 
@@ -543,12 +648,20 @@ class Ledger:
             self.fail("request raised %s: %s (nothing was lost)" % (type(r).__name__, r), fp)
         for k, ids in self.ent.items():
             heldk = [e.id for e in (h["q"] if k[0] == "q" else h["i"]) if e.kind == k]
-            if self.ret.get(k, []) + heldk != ids:
+            seen = self.ret.get(k, []) + heldk
+            # a callback still in flight may or may not have appended its event yet; everything else must be there
+            expect = [e for e in ids if (k, e) not in self.inflight or e in seen]
+            if seen != expect:
                 self.fail("events of trigger %s: triggered %r, returned %r, still queued %r" % (k, ids, self.ret.get(k, []), heldk))
         if sorted(e.id for _, e in h["s"]) != sorted(s[2] for s in self.pending_sched()):
             self.fail("scheduled events lost or duplicated")
         if self.sig_out + h["g"] != self.sig_in:
             self.fail("SIGINT events: %d delivered, %d returned, %d held" % (self.sig_in, self.sig_out, h["g"]))
+        # -- a thread-safe callback that has completed interrupts the request: it may not time out / block with it pending
+        stranded = [(k, e) for k, e in self.completed_pending() if k[0] == "i"]
+        if stranded and not spurious and (how == "blocked" or (how == "returned" and r is None)):
+            self.fail("the request %s although the thread-safe event %s%d was deliverable (its callback had completed)"
+                      % ("blocked for ever" if how == "blocked" else "returned None", stranded[0][0], stranded[0][1]))
         # -- prompt
         if self.was_deliverable and how != "raised":
             if how == "blocked" or r is None:
@@ -583,7 +696,10 @@ def oracle(c):
     """-> list of (what, footprint)"""
     env = Env(c)
     led = Ledger(c)
-    env.run(observer=led)
+    try:
+        env.run(observer=led)
+    finally:
+        env.ts_cleanup()
     return led.problems + [("environment protocol: " + b, None) for b in env.bad]
 
 
@@ -685,7 +801,10 @@ def rand_case(r):
     if nA:
         total = r.choice(sizes(thr)) + r.choice([0, 0, 1, -1, 3]) if r.random() < 0.3 else r.randint(nA, 12 * nA)
         stream = rand_stream(r, max(total, nA), d12)
-        if r.random() < 0.5:
+        if nU:
+            # unget_bytes inserts bytes behind what was read: keep keypresses whole on both sides of the insertion
+            apieces = [rand_stream(r, max(1, total // nA), d12) for _ in range(nA)]
+        elif r.random() < 0.5:
             # one big piece + small ones: the burst arrives in one go
             small = [stream[i:i + 1] for i in range(nA - 1)]
             apieces = ([stream[:len(stream) - (nA - 1)]] + [stream[len(stream) - (nA - 1) + i:][:1] for i in range(nA - 1)]) if nA > 1 else [stream]
@@ -696,7 +815,7 @@ def rand_case(r):
         apieces = []
     upieces = [rand_stream(r, r.randint(1, 4), d12) for _ in range(nU)]   # whole keypresses (what a foreign read leaves over)
     agenda, t, eid = [], 0, 0
-    pend_writes = []
+    pend_writes, pend_done = [], []
     for k in slots:
         t += r.choice([0, 0, 0, 1, 1, 2, 5])
         if k == "A":
@@ -715,7 +834,10 @@ def rand_case(r):
                 agenda.append((t, "X", p, eid)); eid += 1
                 pend_writes.append(p)
                 if r.random() < 0.6:
-                    agenda.append((t, "Y", pend_writes.pop(0)))
+                    pend_done.append(pend_writes.pop(0))
+                    agenda.append((t, "Y", pend_done[-1]))
+                    if r.random() < 0.6:
+                        agenda.append((t, "W", pend_done.pop()))
         elif k == "I":
             if wake:
                 agenda.append((t, "I"))
@@ -724,10 +846,17 @@ def rand_case(r):
         else:
             agenda.append((t, "Z"))
         if pend_writes and r.random() < 0.4:
-            agenda.append((t, "Y", pend_writes.pop(0)))
+            pend_done.append(pend_writes.pop(0))
+            agenda.append((t, "Y", pend_done[-1]))
+        if pend_done and r.random() < 0.4:
+            agenda.append((t, "W", pend_done.pop(0)))
     for p in pend_writes:
         t += r.choice([0, 1, 4])
         agenda.append((t, "Y", p))
+        pend_done.append(p)
+    for p in pend_done:
+        t += r.choice([0, 0, 1, 4])
+        agenda.append((t, "W", p))
     ops = []
     for _ in range(r.randint(1, 12)):
         if r.random() < 0.25:
@@ -754,9 +883,14 @@ def corpus():
         # D14: equal schedule times
         dict(thr=8, wake=1, npipes=0, agenda=[(0, "S", 0, 0), (0, "S", 0, 1)], ops=[("d", 1), ("r", 0), ("r", 0), ("r", 0)]),
         # D16: two event-less wake-ups during a 10-tick wait
-        dict(thr=8, wake=1, npipes=1, agenda=[(0, "X", 0, 0), (3, "Y", 0)], ops=[("d", 0), ("r", 10), ("r", 10)]),
-        dict(thr=8, wake=1, npipes=1, agenda=[(0, "X", 0, 0), (0, "X", 0, 1), (3, "Y", 0), (6, "Y", 0)],
+        dict(thr=8, wake=1, npipes=1, agenda=[(0, "X", 0, 0), (3, "Y", 0), (3, "W", 0)], ops=[("d", 0), ("r", 10), ("r", 10)]),
+        dict(thr=8, wake=1, npipes=1, agenda=[(0, "X", 0, 0), (0, "X", 0, 1), (3, "Y", 0), (6, "Y", 0), (6, "W", 0), (6, "W", 0)],
              ops=[("d", 0), ("r", 0), ("r", 0), ("r", 10)]),
+        # a thread-safe callback stepped through its os.write DURING a blocked request (tsA, tsB, tsC as separate agenda
+        # items): the request must come back with the event as soon as the write lands.  (seeded mutant "write before
+        # append": the request wakes on the pipe, finds nothing, blocks again and times out with the event stranded)
+        dict(thr=8, wake=1, npipes=1, agenda=[(1, "X", 0, 0), (2, "Y", 0), (3, "W", 0)], ops=[("r", 10), ("r", 0)], tag="corpus"),
+        dict(thr=8, wake=1, npipes=1, agenda=[(1, "X", 0, 0), (2, "Y", 0), (3, "W", 0)], ops=[("r", None), ("r", 0)], tag="corpus"),
         # SIGINT during a blocked request / before it
         dict(thr=8, wake=1, npipes=0, agenda=[(2, "I")], ops=[("r", 5), ("r", 5)]),
         dict(thr=8, wake=1, npipes=0, agenda=[(0, "I")], ops=[("d", 0), ("r", 5), ("r", 5)]),
